@@ -217,15 +217,15 @@ def enclosing_stmt(node) -> ast.stmt:
 
 def walk_local(node) -> Iterator[ast.AST]:
     """ast.walk that does not descend into nested function definitions / lambdas / classes
-    (the root itself may be one)."""
+    (the root itself may be one).  Nested definitions themselves are yielded, their bodies are not."""
     stack = [node]
     first = True
     while stack:
         n = stack.pop()
+        yield n
         if not first and isinstance(n, FuncNode + (ast.ClassDef,)):
             continue
         first = False
-        yield n
         stack.extend(reversed(list(ast.iter_child_nodes(n))))
 
 
